@@ -3,6 +3,13 @@ import obl_fixed
 
 
 def run(c):
+    # "a sign waiting for its consonant ... is discarded by one backspace" / "counts as an ongoing session": one-step obligations
+    c.only_clauses = {"backspace_discards_only_the_waiting_sign", "flag_matches_state", "nonempty_return_means_ongoing"}
+    if c.tier == "quick":
+        obl_fixed.obl_session_fixed(c, 2, 0, 1, budget_s=900)
+    else:
+        obl_fixed.obl_session_fixed(c, 3, 1, 2, budget_s=2400)
+    c.only_clauses = None
     if c.tier == "quick":
         obl_fixed.obl_kar_order(c, False, budget_s=900)
     else:
